@@ -34,6 +34,7 @@ func init() {
 	ruleText["R17.2"] = "each tag condition of go/build.(*Context).matchTag named by the property (GOOS, GOARCH, BuildTags, ReleaseTags, unix via unixOS, android=>linux, illumos=>solaris, ios=>darwin) is implemented by, or delegated from, the functions reachable from the constraint evaluator"
 	ruleText["R17.3"] = "the constraint evaluator consults //go:build expressions (go/build/constraint, Context.MatchFile, or raw comment text containing go:build)"
 	ruleText["R17.4"] = "a negative selection verdict prevents reading/parsing the file on every control-flow path"
+	ruleText["R17.6"] = "a loop that adds tags to Context.BuildTags has no break/return/goto; in the evaluator's loop over the file's comment groups no continue/break is guarded by a condition on the group's text other than an emptiness test"
 	ruleText["R17.5"] = "the go1.N tag is satisfied exactly when N <= the context's last release tag (equivalent to membership in ReleaseTags)"
 }
 
@@ -409,6 +410,11 @@ func runC17(c *Config, r *Report) {
 	// R17.5
 	checkReleaseTag(ic, r, decls, delegated)
 
+	// ---- R17.6 every line and every tag is looked at ------------------------------------
+	if !delegated {
+		c17R6(ic, r, decls, ic.G.Funcs[okFn])
+	}
+
 	// ---- R17.4 gating -------------------------------------------------------------------
 	// importSrc: the branch taken when the predicate is true must not reach the read of the file.
 	gate := func(fi *FuncInfo, call *ast.CallExpr, skipValue bool, sinkKeys []string, key string) {
@@ -490,6 +496,205 @@ func runC17(c *Config, r *Report) {
 	}
 	gate(importSrc, skipCalls[0], true, []string{"io/fs.ReadFile", "os.ReadFile", "interp.Interpreter.parse"}, "importSrc/name-rule")
 	gate(parse, okCalls[0], false, []string{"go/parser.ParseFile"}, "parse/constraint-lines")
+}
+
+// c17R6: (a) a loop that adds tags to Context.BuildTags is never left early, so every tag of a
+// yaegi:tags line is set; (b) in the constraint evaluator's loop over the comment groups no
+// group is skipped because of what its text looks like (other than being empty): a +build line
+// that follows another comment line in the same group still counts.
+func c17R6(ic *IC, r *Report, decls []*FuncInfo, okDecl *FuncInfo) {
+	loopBody := func(n ast.Node) *ast.BlockStmt {
+		switch x := n.(type) {
+		case *ast.ForStmt:
+			return x.Body
+		case *ast.RangeStmt:
+			return x.Body
+		}
+		return nil
+	}
+	// exits returns the statements leaving loop (break targeting it, or return).
+	exits := func(loop ast.Node, withContinue bool) []ast.Stmt {
+		var out []ast.Stmt
+		var walk func(n ast.Node, depthBreak, depthLoop int)
+		walk = func(n ast.Node, depthBreak, depthLoop int) {
+			ast.Inspect(n, func(m ast.Node) bool {
+				if m == nil || m == n {
+					return true
+				}
+				switch x := m.(type) {
+				case *ast.FuncLit:
+					return false
+				case *ast.ForStmt, *ast.RangeStmt:
+					walk(loopBody(m), depthBreak+1, depthLoop+1)
+					return false
+				case *ast.SwitchStmt:
+					walk(x.Body, depthBreak+1, depthLoop)
+					return false
+				case *ast.TypeSwitchStmt:
+					walk(x.Body, depthBreak+1, depthLoop)
+					return false
+				case *ast.SelectStmt:
+					walk(x.Body, depthBreak+1, depthLoop)
+					return false
+				case *ast.ReturnStmt:
+					out = append(out, x)
+				case *ast.BranchStmt:
+					if x.Label != nil {
+						out = append(out, x) // labelled: treated as leaving (conservative)
+					} else if x.Tok == token.BREAK && depthBreak == 0 {
+						out = append(out, x)
+					} else if x.Tok == token.CONTINUE && depthLoop == 0 && withContinue {
+						out = append(out, x)
+					} else if x.Tok == token.GOTO {
+						out = append(out, x)
+					}
+				}
+				return true
+			})
+		}
+		walk(loopBody(loop), 0, 0)
+		return out
+	}
+	nTagLoops, nGroupLoops := 0, 0
+	for _, fi := range decls {
+		name := funcName(fi.Decl)
+		ast.Inspect(fi.Decl.Body, func(n ast.Node) bool {
+			body := loopBody(n)
+			if body == nil {
+				return true
+			}
+			// (a) direct append to BuildTags in this loop's own body (nested loops are their own instance)
+			adds := false
+			ast.Inspect(body, func(m ast.Node) bool {
+				if m != ast.Node(body) && loopBody(m) != nil {
+					return false
+				}
+				if as, ok := m.(*ast.AssignStmt); ok {
+					for _, l := range as.Lhs {
+						if v := selField(ic.Info, l); v != nil && v.Pkg() != nil && v.Pkg().Path() == "go/build" && v.Name() == "BuildTags" {
+							adds = true
+						}
+					}
+				}
+				return true
+			})
+			if adds {
+				nTagLoops++
+				ex := exits(n, false)
+				var where []string
+				for _, e := range ex {
+					where = append(where, ic.pos(e.Pos()))
+				}
+				r.Check(len(ex) == 0, "R17.6", fmt.Sprintf("%s/tag-loop#%d/complete", name, nTagLoops), ic.pos(n.Pos()), "the loop adding build tags visits every tag",
+					"the loop adding tags to Context.BuildTags can be left early at "+strings.Join(where, ", ")+": the remaining tags of the line are never set, so files constrained by them are selected differently from the Go toolchain")
+			}
+			return true
+		})
+	}
+	// (b) group loop of the evaluator entry
+	if okDecl != nil {
+		name := funcName(okDecl.Decl)
+		ast.Inspect(okDecl.Decl.Body, func(n ast.Node) bool {
+			rs, ok := n.(*ast.RangeStmt)
+			if !ok {
+				return true
+			}
+			v := selFieldNode(ic.Info, rs.X)
+			if v == nil || v.Name() != "Comments" || v.Pkg() == nil || v.Pkg().Path() != "go/ast" {
+				return true
+			}
+			nGroupLoops++
+			var grp types.Object
+			if id, ok := rs.Value.(*ast.Ident); ok {
+				grp = ic.Info.ObjectOf(id)
+			}
+			tainted := map[types.Object]bool{}
+			mentions := func(e ast.Node, set map[types.Object]bool, also types.Object) bool {
+				hit := false
+				ast.Inspect(e, func(m ast.Node) bool {
+					if id, ok := m.(*ast.Ident); ok {
+						if o := ic.Info.ObjectOf(id); o != nil && (set[o] || (also != nil && o == also)) {
+							hit = true
+						}
+					}
+					return true
+				})
+				return hit
+			}
+			isString := func(e ast.Expr) bool {
+				t := ic.Info.TypeOf(e)
+				if t == nil {
+					return false
+				}
+				b, ok := t.Underlying().(*types.Basic)
+				return ok && b.Info()&types.IsString != 0
+			}
+			// string values derived from the group, in source order
+			ast.Inspect(rs.Body, func(m ast.Node) bool {
+				if as, ok := m.(*ast.AssignStmt); ok && len(as.Lhs) == len(as.Rhs) {
+					for i, rhs := range as.Rhs {
+						if isString(rhs) && mentions(rhs, tainted, grp) {
+							if id, ok := as.Lhs[i].(*ast.Ident); ok {
+								if o := ic.Info.ObjectOf(id); o != nil {
+									tainted[o] = true
+								}
+							}
+						}
+					}
+				}
+				return true
+			})
+			textDep := func(cond ast.Expr) bool {
+				dep := false
+				ast.Inspect(cond, func(m ast.Node) bool {
+					e, ok := m.(ast.Expr)
+					if !ok {
+						return true
+					}
+					if be, ok := e.(*ast.BinaryExpr); ok && (be.Op == token.EQL || be.Op == token.NEQ) {
+						// emptiness tests are accepted: x == "" and len(x) == 0
+						for _, side := range [][2]ast.Expr{{be.X, be.Y}, {be.Y, be.X}} {
+							if tv, ok := ic.Info.Types[side[1]]; ok && tv.Value != nil && (tv.Value.ExactString() == `""` || tv.Value.ExactString() == "0") {
+								if c, ok := unparen(side[0]).(*ast.CallExpr); ok {
+									if id, ok := c.Fun.(*ast.Ident); ok && id.Name == "len" {
+										return false
+									}
+								}
+								if tv.Value.ExactString() == `""` {
+									return false
+								}
+							}
+						}
+					}
+					if isString(e) && mentions(e, tainted, grp) {
+						dep = true
+					}
+					return true
+				})
+				return dep
+			}
+			var bad []string
+			for _, ex := range exits(rs, true) {
+				if _, isRet := ex.(*ast.ReturnStmt); isRet {
+					continue // a verdict
+				}
+				for _, p := range enclosingPath(rs.Body, ex) {
+					if ifs, ok := p.(*ast.IfStmt); ok && textDep(ifs.Cond) {
+						bad = append(bad, ic.pos(ex.Pos())+" under "+types.ExprString(ifs.Cond))
+					}
+				}
+			}
+			r.Check(len(bad) == 0, "R17.6", fmt.Sprintf("%s/group-loop#%d/no-text-based-skip", name, nGroupLoops), ic.pos(rs.Pos()), "every line of every comment group reaches the line evaluator",
+				"a whole comment group is skipped depending on its text ("+strings.Join(bad, "; ")+"): a constraint line that is not the first line of its group (after a copyright or 'Code generated' line) is ignored and the file is selected although the Go toolchain excludes it")
+			return true
+		})
+	}
+	if nTagLoops == 0 {
+		r.Errorf("R17.6: no loop adding to Context.BuildTags found in the constraint evaluator")
+	}
+	if nGroupLoops == 0 {
+		r.Errorf("R17.6: no loop over the file's comment groups found in the constraint evaluator entry")
+	}
 }
 
 // reachAvoiding reports whether `to` is reachable from `from` without passing through `avoid`.
